@@ -9,7 +9,7 @@ import itertools
 import os
 import random
 
-REPO = "/repo"
+from .paths import REPO
 PSEUDO = ["CR", "CRP", "XRAY", "Photon", "PHOTON", "CRPHOT"]
 
 
